@@ -21,6 +21,9 @@ import networkx as nx
 PKG = "sqllineage"
 
 
+from .normalise import is_marker as _is_marker  # noqa: E402
+
+
 class AnalysisError(Exception):
     """Raised when an anchor cannot be located or a shape is not understood: exit 2, never a pass."""
 
@@ -185,6 +188,14 @@ class Prog:
         self._limp_cache: dict = {}
         self._cg = None
         self._load()
+        self.norm_stats: dict = {}
+        if os.environ.get("SA_NO_NORMALISE") != "1":
+            from . import normalise
+
+            trees = {name: m.tree for name, m in self.mods.items()}
+            self.norm_stats = normalise.absorb_helpers(trees)
+            self.norm_stats["accumulator_loops_folded"] = sum(normalise.fold_accumulator_loops(t) for t in trees.values())
+            self.norm_stats["annotated_assignments"] = sum(normalise.plain_assignments(t) for t in trees.values())
         self._index()
         self._resolve_bases()
 
@@ -254,6 +265,8 @@ class Prog:
                 for s in stmt.body:
                     if isinstance(s, ast.Assign) and len(s.targets) == 1 and isinstance(s.targets[0], ast.Name):
                         c.consts[s.targets[0].id] = s.value
+                        if hasattr(s, "_ann"):
+                            c.annots[s.targets[0].id] = s._ann
                     elif isinstance(s, ast.AnnAssign) and isinstance(s.target, ast.Name):
                         c.annots[s.target.id] = s.annotation
                         if s.value is not None:
@@ -292,6 +305,8 @@ class Prog:
                             and n.target.value.id == "self"
                         ):
                             cls.annots.setdefault(n.target.attr, n.annotation)
+                        elif isinstance(n, ast.Assign) and hasattr(n, "_ann") and isinstance(n.targets[0], ast.Attribute) and isinstance(n.targets[0].value, ast.Name) and n.targets[0].value.id == "self":
+                            cls.annots.setdefault(n.targets[0].attr, n._ann)
             elif top and isinstance(stmt, ast.Assign):
                 for t in stmt.targets:
                     if isinstance(t, ast.Name):
@@ -751,11 +766,95 @@ class Prog:
                 out.append((n.name, ("except", n)))
         return table
 
+    def value_sources(self, fn: Fn, expr: ast.AST, _depth: int = 0, _seen: Optional[set] = None) -> list[ast.AST]:
+        """Expressions whose value may become the value of `expr` (flow-insensitive, intra-procedural after normalisation): follows local
+        names through every definition, tuple packing / unpacking, walrus, conditional and `or` expressions.  Loop / comprehension targets
+        yield the iterated expression wrapped as ('elem', iter).  Never follows calls."""
+        seen = _seen if _seen is not None else set()
+        if _depth > 12 or id(expr) in seen:
+            return []
+        seen.add(id(expr))
+        if isinstance(expr, ast.NamedExpr):
+            return self.value_sources(fn, expr.value, _depth + 1, seen)
+        if isinstance(expr, ast.IfExp):
+            return self.value_sources(fn, expr.body, _depth + 1, seen) + self.value_sources(fn, expr.orelse, _depth + 1, seen)
+        if isinstance(expr, ast.BoolOp):
+            out: list[ast.AST] = []
+            for v in expr.values:
+                out += self.value_sources(fn, v, _depth + 1, seen)
+            return out
+        if isinstance(expr, ast.Name):
+            f: Optional[Fn] = fn
+            defs = []
+            while f is not None:
+                defs = self.local_defs(f, expr.id)
+                if defs or expr.id in f.params():
+                    break
+                f = f.parent
+            if not defs or f is None:
+                return [expr]
+            out = []
+            for kind, node in defs:
+                if kind in ("assign", "walrus", "annassign") and getattr(node, "value", None) is not None:
+                    out += self.value_sources(f, node.value, _depth + 1, seen)
+                elif kind.startswith("unpack:") and isinstance(node, ast.Assign) and kind != "unpack:nested":
+                    i = int(kind.split(":")[1])
+                    for src in self.value_sources(f, node.value, _depth + 1, seen):
+                        if isinstance(src, (ast.Tuple, ast.List)) and i < len(src.elts) and not any(isinstance(e, ast.Starred) for e in src.elts):
+                            out += self.value_sources(f, src.elts[i], _depth + 1, seen)
+                        else:
+                            out.append(ast.Subscript(value=src, slice=ast.Constant(value=i), ctx=ast.Load()))
+                else:
+                    out.append(node)
+            if expr.id in f.params():
+                out.append(expr)
+            return out
+        return [expr]
+
+    def influences(self, fn: Fn, expr: ast.AST, _seen: Optional[set] = None) -> Iterator[ast.AST]:
+        """Every AST node the value of `expr` may be computed from inside `fn`: the nodes of `expr` and, transitively, of the
+        definitions of the local names it mentions (flow-insensitive)."""
+        seen = _seen if _seen is not None else set()
+        for n in ast.walk(expr):
+            if id(n) in seen:
+                continue
+            seen.add(id(n))
+            yield n
+            if isinstance(n, ast.Name) and isinstance(n.ctx, ast.Load):
+                for kind, node in self.local_defs(fn, n.id):
+                    src = getattr(node, "value", None) if kind in ("assign", "walrus", "annassign", "augassign") or kind.startswith("unpack") else getattr(node, "iter", None) or getattr(node, "context_expr", None)
+                    if src is not None and id(src) not in seen:
+                        yield from self.influences(fn, src, seen)
+                for src in self.local_mutations(fn).get(n.id, []):  # x.append(e) / x.extend(e) / x[k] = e feed x as well
+                    if id(src) not in seen:
+                        yield from self.influences(fn, src, seen)
+
+    MUTATORS = ("append", "extend", "insert", "add", "update", "setdefault", "appendleft", "extendleft")
+
+    def local_mutations(self, fn: Fn) -> dict[str, list[ast.AST]]:
+        """local name -> expressions stored into the container it names by in-place mutation inside fn."""
+        key = ("mut", fn.qual)
+        if key not in self._defs_cache:
+            table: dict[str, list[ast.AST]] = {}
+            for n in self.walk_fn(fn):
+                if isinstance(n, ast.Call) and isinstance(n.func, ast.Attribute) and n.func.attr in self.MUTATORS and isinstance(n.func.value, ast.Name):
+                    table.setdefault(n.func.value.id, []).extend(list(n.args) + [kw.value for kw in n.keywords])
+                elif isinstance(n, ast.Subscript) and isinstance(n.ctx, ast.Store) and isinstance(n.value, ast.Name):
+                    st = self.enclosing_stmt(n)
+                    if isinstance(st, (ast.Assign, ast.AugAssign)):
+                        table.setdefault(n.value.id, []).extend([st.value, n.slice])
+            self._defs_cache[key] = table
+        return self._defs_cache[key]
+
     def walk_fn(self, fn: Fn) -> Iterator[ast.AST]:
         """Walk the body of fn without descending into nested function / class definitions."""
         todo = list(ast.iter_child_nodes(fn.node))
         while todo:
             n = todo.pop()
+            if _is_marker(n):  # synthetic jump of an absorbed helper (normalise.py): only its real content is visible to rules
+                if isinstance(n, ast.Try):
+                    todo.extend(n.body)
+                continue
             yield n
             if isinstance(n, (ast.FunctionDef, ast.AsyncFunctionDef, ast.ClassDef, ast.Lambda)):
                 continue
@@ -927,6 +1026,8 @@ class Prog:
     def _def_type(self, kind: str, node: ast.AST, fn: Fn, _d: int) -> T:
         if kind == "annassign":
             return self.ann_type(node.annotation, fn.mod, fn)
+        if kind == "assign" and hasattr(node, "_ann"):
+            return self.ann_type(node._ann, fn.mod, fn)
         if kind in ("assign", "walrus"):
             return self.infer(node.value, fn, fn.mod, _d)
         if kind == "augassign":
